@@ -321,6 +321,26 @@ func RunCheck(prop string, opt CheckOptions) *CheckResult {
 				reachFails = append(reachFails, reachFail{c + "/reach", "no contract block / function of that name in the current tree", nil})
 			}
 		}
+		// every lemma a selected block `uses` is part of the check: proved lemmas are verified here too,
+		// trusted ones are listed as assumptions (a lemma used but neither proved nor listed would be an
+		// unreported assumption)
+		inSel := map[*FuncContract]bool{}
+		for _, fc := range fcs {
+			inSel[fc] = true
+		}
+		for i := 0; i < len(fcs); i++ {
+			fc := fcs[i]
+			sp := e.PkgOf[fc]
+			if sp == nil {
+				continue
+			}
+			for _, u := range fc.Uses {
+				if l := e.Lemmas[sp.Pkg.Path()+":"+strings.TrimSpace(u)]; l != nil && !inSel[l] {
+					inSel[l] = true
+					fcs = append(fcs, l)
+				}
+			}
+		}
 		sort.Slice(fcs, func(i, j int) bool { return e.fnKey(fcs[i]) < e.fnKey(fcs[j]) })
 		var obls []*Obligation
 		vacuity := map[*Obligation]bool{}
